@@ -461,7 +461,15 @@ func processField(ctx context.Context, name string, schema *Schema) (parameter *
 	if err != nil {
 		return nil, i18n.WrapError(ctx, err, signermsgs.MsgInvalidFFIDetailsSchema, name)
 	}
-	return
+	// The JSON type must agree with the Ethereum type at every level, not just for the top-level parameter
+	tc, err := parameter.TypeComponentTreeCtx(ctx)
+	if err != nil {
+		return nil, i18n.WrapError(ctx, err, signermsgs.MsgInvalidFFIDetailsSchema, name)
+	}
+	if err := inputTypeValidForTypeComponent(ctx, schema, tc); err != nil {
+		return nil, i18n.WrapError(ctx, err, signermsgs.MsgInvalidFFIDetailsSchema, name)
+	}
+	return parameter, nil
 }
 
 func ABIArgumentToTypeString(typeName string, components abi.ParameterArray) string {
